@@ -47,6 +47,18 @@ template <class T> static uint64_t draw_base(pbt::Ctx& c) { return sizeof(T) == 
 // expected size / alignment of vec<L,T,Q> from the documented contract
 template <int L, class T, glm::qualifier Q> static size_t exp_vec_size() { return Al<Q>::v ? (size_t)(L == 3 ? 4 : L) * sizeof(T) : (size_t)L * sizeof(T); }
 template <int L, class T, glm::qualifier Q> static size_t exp_vec_align() { return Al<Q>::v ? (size_t)(L == 3 ? 4 : L) * sizeof(T) : alignof(T); }
+// Alignment contract of an aligned type of `size` bytes: the generic storage is alignas(size); a type stored in SIMD registers has the
+// alignment of the widest register of the configured instruction set that it fills (an aligned dvec4 is two __m128d below AVX, so 16).
+// Nothing documents more than that, so any power of two in [min(size, widest register), size] is accepted.
+static inline bool aligned_align_ok(size_t a, size_t size) {
+#if GLM_ARCH & GLM_ARCH_AVX_BIT
+	const size_t reg = 32;
+#else
+	const size_t reg = 16;
+#endif
+	size_t lo = size < reg ? size : reg;
+	return a >= lo && a <= size && (a & (a - 1)) == 0;
+}
 
 template <class V> static void check_length_type(pbt::Ctx& c, const std::string& name) {
 #ifdef C16_EXPECT_SIZE_T_LENGTH
@@ -62,7 +74,7 @@ template <int L, class T, glm::qualifier Q> static void check_vec(pbt::Ctx& c, c
 	c.logf("%s", name.c_str());
 	if (L >= 2) c.nontrivial();
 	if (sizeof(V) != exp_vec_size<L, T, Q>()) FAIL("sizeof", "sizeof=%zu, contract %zu", sizeof(V), exp_vec_size<L, T, Q>());
-	if (alignof(V) != exp_vec_align<L, T, Q>()) FAIL("alignof", "alignof=%zu, contract %zu", alignof(V), exp_vec_align<L, T, Q>());
+	if (Al<Q>::v ? !aligned_align_ok(alignof(V), exp_vec_align<L, T, Q>()) : alignof(V) != exp_vec_align<L, T, Q>()) FAIL("alignof", "alignof=%zu, contract %zu", alignof(V), exp_vec_align<L, T, Q>());
 	if ((int)V::length() != L) FAIL("length", "length()=%d", (int)V::length());
 	check_length_type<V>(c, name);
 	uint64_t base = draw_base<T>(c);
@@ -154,7 +166,7 @@ template <class T, glm::qualifier Q> static void check_qua(pbt::Ctx& c, const st
 	c.nontrivial();
 	size_t es = Al<Q>::v ? 4 * sizeof(T) : 4 * sizeof(T), ea = Al<Q>::v ? 4 * sizeof(T) : alignof(T);
 	if (sizeof(Qt) != es) FAIL("sizeof", "sizeof=%zu, contract %zu", sizeof(Qt), es);
-	if (alignof(Qt) != ea) FAIL("alignof", "alignof=%zu, contract %zu", alignof(Qt), ea);
+	if (Al<Q>::v ? !aligned_align_ok(alignof(Qt), ea) : alignof(Qt) != ea) FAIL("alignof", "alignof=%zu, contract %zu", alignof(Qt), ea);
 	if ((int)Qt::length() != 4) FAIL("length", "length()=%d", (int)Qt::length());
 	check_length_type<Qt>(c, name);
 	uint64_t base = draw_base<T>(c);
